@@ -186,6 +186,31 @@ struct Kept {
     index: usize,
 }
 
+/// Bound on the iterations of a10's record decoding loop (hook point
+/// `DecodeLoop`, `--cfg a10_verif`) within one `poll_next` call: a read buffer
+/// holds at most 17 records, so a call that goes round more often than this no
+/// longer advances. A count, not a clock: the verdict is deterministic.
+const DECODE_STEP_LIMIT: u32 = 1000;
+const DECODE_LIVELOCK: &str = "a10verif: decode loop does not advance";
+
+thread_local! {
+    static DECODE_STEPS: std::cell::Cell<u32> = const { std::cell::Cell::new(0) };
+}
+
+fn decode_step(point: a10::verif::Point, _addr: usize) {
+    if point != a10::verif::Point::DecodeLoop {
+        return;
+    }
+    let n = DECODE_STEPS.with(|c| {
+        c.set(c.get() + 1);
+        c.get()
+    });
+    if n > DECODE_STEP_LIMIT {
+        // Unwinds out of poll_next; caught by the driver.
+        panic!("{DECODE_LIVELOCK}");
+    }
+}
+
 pub struct C17;
 
 fn rec() -> impl Strategy<Value = Rec> {
@@ -615,11 +640,21 @@ fn run_case(case: &Case, ctx: &mut Ctx) {
                 break;
             }
             let mut cx = Context::from_waker(&waker.waker);
+            DECODE_STEPS.with(|c| c.set(0));
+            a10::verif::install_point(Some(decode_step));
             let r = {
                 let _s = track::scope(track::TAG_A10);
                 catch(|| Pin::new(&mut events).poll_next(&mut cx))
             };
+            a10::verif::install_point(None);
             match r {
+                Err((msg, _)) if msg.contains(DECODE_LIVELOCK) => {
+                    fail(ctx, "decode-livelock", format!("one Events::poll_next call went round its decoding loop more than {DECODE_STEP_LIMIT} times (a read holds at most 17 records) without returning: it no longer advances past a record (after {yielded} events; the kernel delivered {})", model.len()));
+                    // The iterator's state is what made it spin: it is not polled again.
+                    std::mem::forget(events);
+                    sim::sim().enter_hook = None;
+                    return;
+                }
                 Err((msg, loc)) => {
                     fail(ctx, "panic", format!("Events::poll_next panicked at {loc}: {msg}"));
                     break 'outer;
